@@ -67,7 +67,19 @@ func (pt *ParsedTable) ToMarkdown() string {
 		sb.WriteString("|")
 		colIdx := 0
 		for _, cell := range row.Cells {
+			span := cell.ColSpan
+			if span < 1 {
+				span = 1
+			}
+			// Markdown has no merged cells: a cell covered by a merge, and the
+			// extra columns of a horizontally spanning cell, are written as empty
+			// cells so that every row has one cell per grid column and texts stay
+			// in their own column.
 			if cell.IsCovered {
+				for k := 0; k < span; k++ {
+					sb.WriteString(" |")
+				}
+				colIdx += span
 				continue
 			}
 			// Replace newlines and pipes within cells
@@ -77,10 +89,8 @@ func (pt *ParsedTable) ToMarkdown() string {
 			sb.WriteString(" ")
 			sb.WriteString(text)
 			sb.WriteString(" |")
-
-			span := cell.ColSpan
-			if span < 1 {
-				span = 1
+			for k := 1; k < span; k++ {
+				sb.WriteString(" |")
 			}
 			colIdx += span
 		}
